@@ -43,9 +43,11 @@ func GetShortFieldID(
 	// going to be more efficient than loading the field short-ids one by one, and we'll
 	// usually want most of them.
 
-	key := keys.NewFieldIDPrefix(collectionShortID)
+	// The prefix must end with a separator, otherwise the fields of the collections whose short id
+	// starts with the same digits (e.g. 10..19 for 1) are loaded as fields of this collection as well.
+	prefix := append(keys.NewFieldIDPrefix(collectionShortID).Bytes(), '/')
 	txn := datastore.CtxMustGetTxn(ctx)
-	iter, err := txn.Systemstore().Iterator(ctx, corekv.IterOptions{Prefix: key.Bytes()})
+	iter, err := txn.Systemstore().Iterator(ctx, corekv.IterOptions{Prefix: prefix})
 	if err != nil {
 		return 0, err
 	}
